@@ -916,7 +916,12 @@ class CompilerPassGenerateCode(CompilerPass):
             raise CompilerError("List must be constant", node)
 
         values = iter_data.constant_value
-        for_label, body_label, end_label = self.get_label("for", "for.body", "for.end")
+        for_label, body_label, cont_label, end_label = self.get_label(
+            "for", "for.body", "for.cont", "for.end"
+        )
+        # targets of 'continue' (return from the body subroutine) and 'break'
+        node._ndata.start_label = cont_label
+        node._ndata.end_label = end_label
         value_sym = self.data.get_sym_data(node.target)
         if not value_sym.code_expr:
             value_sym.code_expr = self.get_intermediate_symbol(node, True).code_expr
@@ -929,6 +934,7 @@ class CompilerPassGenerateCode(CompilerPass):
         data.add(IC10("j", [end_label]))
 
         data.add(IC10(f"{body_label}:"))
+        data.add_end(IC10(f"{cont_label}:"))
         data.add_end(IC10("j", ["ra"], indent=1))
         data.add_end(IC10(f"{end_label}:"))
 
